@@ -75,6 +75,18 @@ struct RD {
     }
 };
 
+// second grammar: functor result types that differ from the left side's value type but convert to it (int -> long next to an
+// nterm<int>; term_value<char> -> char through _e1): the left side's type, not the functor's raw result type, decides what is stored
+constexpr nterm<long> total("total"); constexpr nterm<int> unit("unit"); constexpr nterm<char> mark("mark");
+static auto make_q() {
+    return parser(total, terms('1', '2', '+', '!'), nterms(total, unit, mark), rules(
+        unit('1') >= val(1), unit('2') >= val(2),
+        mark('!') >= _e1,
+        total(unit) >= _e1,
+        total(total, '+', unit) >= [](long a, skip, int b) { return a + b; },
+        total(total, mark) >= [](long a, char m) { return m == '!' ? a * 10 : -1; }));
+}
+
 int main(int argc, char** argv) {
     int n = argc > 1 ? std::atoi(argv[1]) : 5;
     static const auto p = make_p();
@@ -97,6 +109,23 @@ int main(int argc, char** argv) {
         if (r->repr != want) { fail("value " + r->repr + " expected " + want); continue; }
         ++checks;
         if (events != rd.events) { std::string a, b; for (auto& e : events) a += e + " "; for (auto& e : rd.events) b += e + " "; fail("construction order [" + a + "] expected [" + b + "]"); }
+    }
+    {   // grammar 2 on every input up to the same bound
+        static const auto q = make_q();
+        std::vector<std::string> in2{""}; const char al2[] = {'1', '2', '+', '!', ' '};
+        for (size_t lo = 0, l = 0; l < (size_t)n + 1; ++l) { size_t hi = in2.size(); for (size_t i = lo; i < hi; ++i) for (char c : al2) in2.push_back(in2[i] + c); lo = hi; }
+        for (const std::string& in : in2) {
+            ++cases; ++checks;
+            // independent evaluation: unit (('+' unit) | '!')*
+            std::string t; for (char c : in) if (c != ' ') t += c;
+            bool wok = !t.empty() && (t[0] == '1' || t[0] == '2'); long want = wok ? t[0] - '0' : 0; size_t k = 1;
+            while (wok && k < t.size()) { if (t[k] == '!') { want *= 10; ++k; } else if (t[k] == '+' && k + 1 < t.size() && (t[k + 1] == '1' || t[k + 1] == '2')) { want += t[k + 1] - '0'; k += 2; } else wok = false; }
+            std::optional<long> r; std::string thrown; std::ostringstream es;
+            try { r = q.parse(string_buffer(std::string(in)), es); } catch (const std::exception& e) { thrown = e.what(); }
+            if (!thrown.empty()) { ++fails; if (first.empty()) first = "grammar 2 input '" + in + "': parse threw " + thrown; continue; }
+            if (r.has_value() != wok || (wok && *r != want)) { ++fails; if (first.empty()) first = "grammar 2 input '" + in + "': got " + (r ? std::to_string(*r) : std::string("empty")) + " expected " + (wok ? std::to_string(want) : std::string("empty")); }
+            if (wok) ++accepted;
+        }
     }
     std::string esc; for (char c : first) { if (c == '"' || c == '\\') esc += '\\'; esc += c; }
     std::printf("{\"cases\": %ld, \"checks\": %ld, \"failures\": %ld, \"accepted\": %ld, \"first_failure\": \"%s\"}\n", cases, checks, fails, accepted, esc.c_str());
